@@ -120,7 +120,7 @@ def leaf_case(kind, pre, name, shape, key, L, known=None):
         doc = {"value": "[u1, 0, 6, [1], {'k': 0, 1: 2}]", "key": "{3: u1, 2: 0, 0: 1, None: 2}", "index": "[u1, 0, 'a']"}[kind]
         dparams = [("u1", "Union[int, bool, None]")]
     if sid == "default_tol":
-        dparams = [("u1", "Union[bool, None, str]")]   # the default tolerance is a float: no symbolic int leaf against it
+        dparams = [("u1", "Optional[str]")]   # the default tolerance is a float: no symbolic int or bool leaf against it (int/real mix stalls z3)
     params = list(params) + dparams
     cls = {("value", None): "Value", ("value", "length"): "Value.length", ("value", "dtype"): "Value.dtype", ("key", None): "Key",
            ("key", "length"): "Key.length", ("key", "dtype"): "Key.dtype", ("index", None): "Index"}[(kind, pre)]
